@@ -183,6 +183,16 @@ def classify(meta, res):
             elif ext_clause:
                 clause = ext_clause
                 owner_fn = loc.get("fn")
+            else:
+                # `loop invariant not satisfied` at a `continue` / `break`: the primary span is the statement,
+                # the invariant that failed is a labelled secondary span
+                for sx in spans:
+                    if sx is p or "failed this invariant" not in (sx.get("label") or ""):
+                        continue
+                    w2 = _where(meta, gen, gen_text, sx)
+                    if w2.get("o") == "spec" and w2.get("clause"):
+                        clause, owner_fn = w2["clause"], w2["fn"]
+                        break
         if kind == "requires":
             for s in spans:
                 if s.get("label") and "failed precondition" in s["label"]:
@@ -443,7 +453,7 @@ BOUNDED = {
                  what="convert_to_sem_type + is_subtype on named, possibly recursive types (not under contract): the 23769 questions of the `refs` family (see C05), a case fails only when the real code PANICS")],
     "C06": [dict(family="proper", obligation="proper_subtype/bounded-standin/proper.sub_vec",
                  known_cases="contracts/known_proper_cases.txt",
-                 what="sub_vec_union / sub_vec_intersect / sub_vec_diff (assumed in C06; Verus rejects their labelled `continue`): reached through the public ProperSubtypeOps on all same-tag pairs of 52 proper subtypes (number lists over {1,2,3}, string lists over {a,b,c}, two typed-array kinds, allowed and excluded, booleans, diagrams), membership compared for every literal value")],
+                 what="cross-check of what the proof of sub_vec_union / sub_vec_intersect / sub_vec_diff leaves assumed (std's sort, derived Clone / PartialEq, rewrites R15 / R16), on the code as compiled by rustc: reached through the public ProperSubtypeOps on all same-tag pairs of 52 proper subtypes (number lists over {1,2,3}, string lists over {a,b,c}, two typed-array kinds, allowed and excluded, booleans, diagrams), membership compared for every literal value")],
     "C07": [dict(family="front", args_quick=["--depth", "1", "--offset", "{seed}"], args_thorough=["--depth", "2", "--offset", "{seed}"],
                  obligation="frontend/bounded-standin/front.extract",
                  known_cases="contracts/known_front_cases.txt",
